@@ -155,14 +155,14 @@ fn run_targeted_s(form: u64, ti: u64, real: bool, strict: bool) -> Result<Option
 
 // ---- history family: the same attempts, made after the OS itself has just executed / touched the target on the same simulator
 const PRE_AT: u16 = 0x5000;
-const PRE_NAMES: [&str; 3] = ["OUT", "PUTS", "GETC"];
+const PRE_NAMES: [&str; 4] = ["OUT", "PUTS", "GETC", "PUTS of an empty string"];
 /// Runs one OS service call from user code at x5000 on `p` (which is left in user mode just after the call);
 /// returns the supervisor-space addresses the OS executed or accessed while serving it.
 fn preamble(p: &mut Pair, pre: u64) -> Result<Vec<u16>, (String, String)> {
-    let word = [0xF021u16, 0xF022, 0xF020][pre as usize];
+    let word = [0xF021u16, 0xF022, 0xF020, 0xF022][pre as usize];
     p.sim.mem[PRE_AT].set(word);
     for (k, c) in [0x4Fu16, 0x4B, 0].iter().enumerate() { p.sim.mem[PRE_AT + 0x100 + k as u16].set(*c); }
-    p.sim.reg_file[reg(0)].set(if pre == 1 { PRE_AT + 0x100 } else { 0x0041 });
+    p.sim.reg_file[reg(0)].set(if pre == 1 { PRE_AT + 0x100 } else if pre == 3 { PRE_AT + 0x102 } else { 0x0041 });
     p.sim.pc = PRE_AT;
     let mut seen = std::collections::BTreeSet::new();
     for _ in 0..3000 {
@@ -191,6 +191,26 @@ fn run_history(pre: u64, form: u64, k: u64, real: bool) -> Result<Option<bool>, 
     let mut p = build(&m);
     preamble(&mut p, pre)?;
     // back to the scenario's own user-mode state on the same simulator (public fields and the PSR port, as a front end would)
+    for i in 0..8 { p.sim.reg_file[reg(i)].set(m.regs[i as usize]); }
+    p.sim.pc = m.pc;
+    p.sim.write_mem(0xFFFC, lc3_ensemble::sim::mem::Word::new_init(m.psr), lc3_ensemble::sim::MemAccessCtx::omnipotent()).map_err(|e| ("machinery:psr".to_string(), format!("{e:?}")))?;
+    let mut violated = false;
+    for _ in 0..steps {
+        if p.sim.psr().privileged() { if let Err(m) = catch(|| p.sim.step_in()) { return Err((format!("panic:{}", panic_site(&m)), m)); } continue; }
+        let e = check_step(&mut p, &what)?;
+        if e != Expect::Clean { violated = true; if !real { break; } }
+    }
+    Ok(Some(violated))
+}
+
+/// scale: a long history of privilege switches (one GETC, then `n` PUTS of an empty string: 2n+2 switches, n = 0..=300) before the attempt
+fn run_switches(n: u64, form: u64, io: bool, real: bool) -> Result<Option<bool>, (String, String)> {
+    let t = if io { 0xFE02 } else { *preamble_targets(2, real).first().unwrap_or(&0x0200) };
+    let Some((m, steps, what)) = targeted_at(form, t, real) else { return Ok(None) };
+    let what = format!("after a GETC and {n} PUTS of an empty string served by the OS ({} privilege switches): {what}", 2 * n + 2);
+    let mut p = build(&m);
+    preamble(&mut p, 2)?;
+    for _ in 0..n { preamble(&mut p, 3)?; }
     for i in 0..8 { p.sim.reg_file[reg(i)].set(m.regs[i as usize]); }
     p.sim.pc = m.pc;
     p.sim.write_mem(0xFFFC, lc3_ensemble::sim::mem::Word::new_init(m.psr), lc3_ensemble::sim::MemAccessCtx::omnipotent()).map_err(|e| ("machinery:psr".to_string(), format!("{e:?}")))?;
@@ -235,6 +255,17 @@ pub fn run(ctx: &Ctx) -> Report {
         }
     });
     rep.absorb(r);
+    let forms = [0u64, 1, 4, 9];
+    let r = sweep(ctx, 301 * 4 * 2 * 2, 4, |i, acc| {
+        let (n, form, io, real) = (i / 16, forms[(i / 4 % 4) as usize], i / 2 % 2 == 1, i % 2 == 1);
+        match run_switches(n, form, io, real) {
+            Ok(None) => {}
+            Ok(Some(v)) => { acc.evals += 1; acc.transitions += 30 * n + 40; acc.count("switch_history_cases", 1); if v { acc.nontrivial += 1; acc.count("switch_history_attempts", 1); } }
+            Err((sig, d)) => { acc.evals += 1; acc.violation(sig, format!("w:{n}:{form}:{}:{}", io as u8, real as u8), d); }
+        }
+    });
+    rep.absorb(r);
+    rep.require(rep.acc.get("switch_history_attempts") > 1000, "attempts after long privilege-switch histories were judged");
     rep.bound("history_targets_per_service", Json::i(maxk));
     let ucs = user_contexts(ctx.thorough());
     let n = ucs.len() as u64;
@@ -256,6 +287,6 @@ pub fn run(ctx: &Ctx) -> Report {
 pub fn replay(case: &str) -> Option<String> {
     let p: Vec<&str> = case.split(':').collect();
     let n = |i: usize| -> Option<u64> { p.get(i)?.parse().ok() };
-    let r = match *p.first()? { "t" => run_targeted_s(n(1)?, n(2)?, n(3)? == 1, n(4).unwrap_or(0) == 1).map(|_| ()), "s" => run_sweep(n(1)?, n(2)? as u16).map(|_| ()), "h" => run_history(n(1)?, n(2)?, n(3)?, n(4)? == 1).map(|_| ()), _ => return None };
+    let r = match *p.first()? { "t" => run_targeted_s(n(1)?, n(2)?, n(3)? == 1, n(4).unwrap_or(0) == 1).map(|_| ()), "s" => run_sweep(n(1)?, n(2)? as u16).map(|_| ()), "w" => run_switches(n(1)?, n(2)?, n(3)? == 1, n(4)? == 1).map(|_| ()), "h" => run_history(n(1)?, n(2)?, n(3)?, n(4)? == 1).map(|_| ()), _ => return None };
     r.err().map(|(s, d)| format!("[{s}] {d}"))
 }
